@@ -1,0 +1,11 @@
+//go:build verif
+
+package apk
+
+import "io"
+
+// VerifDatahash is (*APK).datahash: the single `datahash` value of the .PKGINFO inside a control
+// section (tar.gz). Thin wrapper for the verification harness in /verif.
+func VerifDatahash(controlTarGz io.Reader) (string, error) {
+	return (&APK{}).datahash(controlTarGz)
+}
